@@ -94,9 +94,23 @@ fn numeric_suggestion_payload(var: &impl Render, val: NumericConstant) -> Option
     })
 }
 
-// a poetic string literal ends at the end of the line
+// a poetic string literal ends at the end of the line, and a comment left open in it would
+// swallow the rest of the program
+fn has_poetic_string_spelling(text: &str) -> bool {
+    let mut in_comment = false;
+    for c in text.chars() {
+        match c {
+            '\n' => return false,
+            '(' => in_comment = true,
+            ')' => in_comment = false,
+            _ => {}
+        }
+    }
+    !in_comment
+}
+
 fn string_suggestion_payload(var: &impl Render, val: &StringConstant) -> Option<String> {
-    (!val.value.contains('\n')).then(|| format!("{} says {}", var.render(), val.value))
+    has_poetic_string_spelling(&val.value).then(|| format!("{} says {}", var.render(), val.value))
 }
 
 fn suggestion_text(payload: &str) -> String {
